@@ -4,6 +4,7 @@ import (
 	"bytes"
 	"encoding/json"
 	"fmt"
+	"net/url"
 	"os"
 	"os/exec"
 	"runtime"
@@ -550,6 +551,36 @@ func subsets(xs []string, c *Ctx, max int) [][]string {
 	return out
 }
 
+// selfReferentialTwin: the same documents at the same locations, every object definition with one more property
+// that refers back to the definition itself.
+func selfReferentialTwin(w *refgraph.World) *refgraph.World {
+	twin := w.Clone()
+	for u, doc := range w.Docs {
+		defs, ok := doc.Get("definitions")
+		if !ok || defs.Kind != wire.Obj {
+			continue
+		}
+		nd := defs
+		for _, m := range defs.O {
+			if m.V.Kind != wire.Obj {
+				continue
+			}
+			if _, isRef := m.V.Get("$ref"); isRef {
+				continue
+			}
+			props, ok := m.V.Get("properties")
+			if !ok || props.Kind != wire.Obj {
+				props = wire.ObjV()
+			}
+			frag := (&url.URL{Fragment: "/definitions/" + refgraph.PtrEscape(m.K)}).EscapedFragment()
+			props = props.Set("again", wire.ObjV(wire.M("$ref", wire.StrV("#"+frag))))
+			nd = nd.Set(m.K, m.V.Set("properties", props))
+		}
+		twin.Docs[u] = doc.Set("definitions", nd)
+	}
+	return twin
+}
+
 func cacheFamilies() []graphFamily {
 	return []graphFamily{
 		{"multi-doc-acyclic", refgraph.Options{Docs: 3, Defs: 3, RefP: 0.7, Spellings: true}},
@@ -826,9 +857,11 @@ func runC16(c *Ctx) {
 			c.Fail(Failure{Kind: "oracle", Sig: "C16:builtin-differs", What: "built-in " + u + " differs from the embedded asset at process start"})
 		}
 	}
-	nh := c.N(6, 60)
+	nh := c.N(12, 60)
 	maxLen := c.N(12, 40)
 	isoCache := map[string]entryResult{}
+	// one processor: whatever a call parks in per-processor storage (sync.Pool) is what the next call finds
+	defer runtime.GOMAXPROCS(runtime.GOMAXPROCS(1))
 	for h := 0; h < nh; h++ {
 		// a family of worlds over the same URLs: A, A' (same layout, regenerated content), B
 		fam := cacheFamilies()[h%3]
@@ -839,6 +872,9 @@ func runC16(c *Ctx) {
 				worlds = append(worlds, w)
 			}
 		}
+		// and a twin of the first world in which every definition of every document also refers to itself: what a
+		// call learns about cycles there (same URLs, same names) says nothing about the other worlds
+		worlds = append(worlds, selfReferentialTwin(worlds[0]))
 		single := refgraph.Generate(c.Rng, refgraph.Options{Docs: 1, Defs: 3, Elements: true, Cycles: h%2 == 0, RefP: 0.6})
 		for len(single.BuildGraph().Missing) > 0 {
 			single = refgraph.Generate(c.Rng, refgraph.Options{Docs: 1, Defs: 3, Elements: true, Cycles: h%2 == 0, RefP: 0.6})
